@@ -224,6 +224,42 @@ fn spec_for(id: &str, tier: Tier) -> Spec {
                 assumptions: base_assume,
             }
         }
+        "C20" => {
+            let thorough = tier == Tier::Thorough;
+            let a = |u: Universe| alphabet(u, &W1, 1, true);
+            let ov = mem2();
+            let mut plans = vec![
+                plain(Cfg::Mem, Order::Asc, a(u22())),
+                plain(Cfg::Phys, Order::Asc, a(u4())),
+                plain(Cfg::alt(Cfg::Mem, "/Z"), Order::Asc, a(u4())),
+                populated(ov.clone(), Order::Asc, a(u3()), &Universe::new("U2{a,a/a}", &["/a", "/a/a"]), false),
+            ];
+            if thorough {
+                plans.push(plain(Cfg::Mem, Order::Desc, a(u22())));
+                plans.push(plain(Cfg::alt(Cfg::Phys, "/Z"), Order::Asc, a(u4())));
+                plans.push(populated(ov.clone(), Order::Asc, a(u3()), &u3(), false));
+                plans.push(populated(Cfg::alt(ov.clone(), "/Z"), Order::Asc, a(u3()), &Universe::new("U2{a,a/a}", &["/a", "/a/a"]), false));
+                plans.push(populated(Cfg::Ov(vec![Cfg::Mem, Cfg::Mem, Cfg::Mem]), Order::Asc, a(u3()), &Universe::new("U2{a,a/a}", &["/a", "/a/a"]), false));
+                plans.push(populated(Cfg::Ov(vec![Cfg::Phys, Cfg::Phys]), Order::Asc, a(u3()), &Universe::new("U2{a,a/a}", &["/a", "/a/a"]), false));
+            }
+            Spec {
+                domain: Domain::Typed,
+                mon: Monitors {
+                    model: true,
+                    model_only_kinds: true,
+                    faults: if thorough { 2 } else { 1 },
+                    ..Default::default()
+                },
+                plans,
+                observers: true,
+                rule: "for every reachable state (BFS to fixpoint over the fault-free transitions) and every call of the alphabet incl. observers, walk_dir and read_to_string: one fault-free run counting the n calls made into wrapped filesystems, then one run per fault position k = 1..n (thorough: also every pair k1 < k2 for composites) with exactly that call returning an I/O error; a (state-class, call, outcome-class) triple of the fault-free run counts as non-trivial if the call changed the state or was refused for a reason other than a missing parent",
+                assumptions: vec![
+                    "faults are injected at the public FileSystem trait boundary of every filesystem of the stack (Fault wrapper); faults inside returned read/write handles are not injected",
+                    "listing order owned by the Sorted wrapper, so 'the k-th call' is deterministic",
+                    "finite alphabet as for C01",
+                ],
+            }
+        }
         "C08" => Spec {
             domain: Domain::Unrestricted { root_removal: false },
             mon: Monitors {
@@ -254,7 +290,7 @@ fn to_space(id: &str, spec: &Spec, p: Plan) -> TreeSpace {
 
 pub fn run(ctx: &Ctx, id: &str) -> i32 {
     let spec = spec_for(id, ctx.tier);
-    let info = ctx.info(id, "model_checking");
+    let info = ctx.info(id, if id == "C20" { "fault_enumeration" } else { "model_checking" });
     let mut spaces = vec![];
     let mut spec = spec;
     let plans = std::mem::take(&mut spec.plans);
